@@ -75,7 +75,7 @@ Proof.
       pose proof (kc_desc_offset _ _ _ _ _ _ Hkc _ _ Hd) as Ep.
       pose proof (kc_desc_offset _ _ _ _ _ _ Hkc _ _ Hd2) as Ep2. cbn [fst snd] in Ep2.
       assert (E2 : p2 = (fst p + d, snd p + r)).
-      { rewrite Ep, Ep2. cbn [fst snd]. f_equal; lia. }
+      { rewrite Ep, Ep2. cbn [fst snd]. f_equal; ring. }
       unfold shows.
       rewrite (desc_owner_self id T n q p Hu Hn Hd (Hm eq_refl)).
       rewrite (desc_owner_self id T n _ p2 Hu Hn Hd2 (Hm2 eq_refl)).
@@ -347,7 +347,7 @@ Proof.
       pose proof (kc_desc_offset _ _ _ _ _ _ Hkc0 _ _ Hd) as Ep.
       pose proof (kc_desc_offset _ _ _ _ _ _ Hkc0 _ _ Hd2) as Ep2. cbn [fst snd] in Ep2.
       assert (E2 : p2 = (fst p + d, snd p + r)).
-      { rewrite Ep, Ep2. cbn [fst snd]. f_equal; lia. }
+      { rewrite Ep, Ep2. cbn [fst snd]. f_equal; ring. }
       assert (Hd'' : desc id T'' q = Some p) by (rewrite (kc_desc _ _ _ _ _ _ Hkc); exact Hd).
       unfold shows.
       rewrite (desc_owner id T'' Hu'' q p _ Hd'' Hfw'').
